@@ -25,7 +25,6 @@ from holopy.scattering.theory.scatteringtheory import ScatteringTheory
 from holopy.scattering.scatterer import Sphere
 from holopy.core.metadata import to_vector
 from contracts.kernels import opaque_real, opaque_complex
-from contracts.C05 import _mielens_fields
 
 TH = "holopy.scattering.theory."
 
@@ -96,6 +95,7 @@ ZEROS = {"scalar 0.0": 0.0, "scalar 0": 0, "[0.0]": [0.0], "[0, 0]": [0, 0], "3 
 def zero_aberration(c):
     """AberratedMieLens with all aberration coefficients zero (scalar or list) returns exactly MieLens's field, at every point,
     position above or below focus, polarization direction, sphere and acceptance angle"""
+    from contracts.C05 import _mielens_fields
     form = c.choice("zero_given_as", sorted(ZEROS))
     rho = c.real("krho", nonneg=True, sample=(0, 30))
     phi = c.angle("phi", lo=0, hi=2 * c.pi)
@@ -322,3 +322,41 @@ def integral_evaluation_mode(c):
     c.ensures("mode-selects-the-evaluation", c.iff(calls[0][0] == 'interpolated', want_interp))
     expect = [opaque_complex(("interp_I%d" if calls[0][0] == 'interpolated' else "direct_I%d") % n, [v]) for v in kr]
     c.ensures("result-is-that-evaluations", c.eq(o.value, np.array(expect, dtype=object if c.symbolic else complex)))
+
+
+@contract("C08", "theory_object_reuse", [TH + "mielens:MieLens.raw_fields", TH + "mielens:MieLens._create_calculator",
+                                         TH + "mielensfunctions:MieLensCalculator._interpolate_and_eval_mielens_i_n"], native_only=True,
+          bounded="native sampling: 10x10 detector, MieLens / AberratedMieLens, interpolation 'check' / on / off, two depths and two spheres per run")
+def theory_object_reuse(c):
+    """a lens theory object carries nothing over from one calculation to the next: the field computed with an object that has already
+    been used - for the same sphere at another depth, or for another sphere - equals the field computed with a fresh object, with
+    interpolated and with directly evaluated radial integrals alike (so interpolated = direct cannot depend on call history either)"""
+    from holopy.scattering import calc_field
+    from holopy.core.metadata import detector_grid
+    kind = c.choice("theory", ["MieLens", "AberratedMieLens"])
+    interp = c.choice("interpolate_integrals", ["check", True, False])
+    lens = c.real("lens_angle", sample=(0.4, 1.1))
+    n, r = c.real("n", sample=(1.4, 1.7)), c.real("r", sample=(0.3, 0.8))
+    z1, z2 = c.real("z_first", sample=(-8, 12)), c.real("z_second", sample=(-8, 12))
+    c.requires(abs(z1 - z2) > 0.5)
+    make = (lambda: MieLens(lens_angle=lens, calculator_accuracy_kwargs={'interpolate_integrals': interp}) if kind == "MieLens" else
+            AberratedMieLens(spherical_aberration=0.3, lens_angle=lens, calculator_accuracy_kwargs={'interpolate_integrals': interp}))
+    det = detector_grid(10, 0.25)
+    kw = dict(medium_index=1.33, illum_wavelen=0.66, illum_polarization=(1, 0))
+    first, second = Sphere(n=n, r=r, center=(1.2, 1.3, z1)), Sphere(n=n, r=r, center=(1.2, 1.3, z2))
+    other = Sphere(n=n + 0.05, r=r * 1.1, center=(1.0, 1.4, z2))
+    used = make()
+    calc_field(det, first, theory=used, **kw)
+    got_same_sphere = calc_field(det, second, theory=used, **kw).values
+    got_other = calc_field(det, other, theory=used, **kw).values
+    want_same_sphere = calc_field(det, second, theory=make(), **kw).values
+    want_other = calc_field(det, other, theory=make(), **kw).values
+    close = (lambda a, b: bool(np.allclose(a, b, rtol=1e-11, atol=1e-13)))
+    c.ensures("same-sphere-at-another-depth", close(got_same_sphere, want_same_sphere),
+              detail="max |used - fresh| = %g" % float(np.abs(got_same_sphere - want_same_sphere).max()))
+    c.ensures("another-sphere", close(got_other, want_other), detail="max |used - fresh| = %g" % float(np.abs(got_other - want_other).max()))
+    direct = calc_field(det, second, theory=(MieLens(lens_angle=lens, calculator_accuracy_kwargs={'interpolate_integrals': False}) if kind == "MieLens" else
+                                             AberratedMieLens(spherical_aberration=0.3, lens_angle=lens,
+                                                              calculator_accuracy_kwargs={'interpolate_integrals': False})), **kw).values
+    c.ensures("interpolated-agrees-with-direct-to-1e-6", bool(np.allclose(got_same_sphere, direct, rtol=1e-6, atol=1e-8)),
+              detail="max |interpolated(used object) - direct| = %g" % float(np.abs(got_same_sphere - direct).max()))
